@@ -17,6 +17,10 @@ THEOREMS = [
     "RedunModel.C26.binary_is_deepMerge",
     "RedunModel.C26.deepMerge_wf",
     "RedunModel.C26.merge_lookup",
+    "RedunModel.C26.merge_as_path_function",
+    "RedunModel.C26.key_order_irrelevant",
+    "RedunModel.C26.reorder_extEq",
+    "RedunModel.C26.lookup_respects_extEq",
     "RedunModel.C26.merge_nonmapping_right",
     "RedunModel.C26.merge_nonmapping_left",
     "RedunModel.C26.root_context",
@@ -57,6 +61,24 @@ RULE = ("JSON-like contexts (depth <= 4, keys from a small alphabet incl. '', 'a
         "(depth <= 4, nested update_context, get_context in the body and as argument default) run on the real Scheduler, "
         "every returned value compared with the model's jobContext/getContextValue and with the spec. distinct = distinct "
         "(inputs) tuples; non-trivial = at least one mapping with a nested mapping or a path of >= 2 segments")
+
+LEVEL_TEXT = ("Proved in Lean, all full strength, for contexts of any depth/width with non-mappings anywhere (Ctx.WF = unique keys is the dict "
+              "invariant, not a restriction): binary_is_deepMerge (merge_dicts' n-ary grouping algorithm on two arguments IS the deep merge "
+              "'later wins, mappings merged'), root_context (root = config context merged with run context), job_context / job_context_step "
+              "(induction over the ancestor chain: a job's context = fold of deepMerge over the overrides on its path), "
+              "job_context_no_override, update_context_first / update_context_chained, lookup_spec + lookup_default / lookup_found "
+              "(get_context_value finds exactly the value at the dotted path, else the default; empty segments and non-mappings on the way "
+              "included), merge_lookup, merge_as_path_function + key_order_irrelevant + reorder_extEq + lookup_respects_extEq (the merged "
+              "context as a function from paths to values depends only on the inputs as such functions: key order irrelevant at any depth). "
+              "nary_note is a remark outside the statement. Tie: merge_dicts, get_context_value, Task.update_context and generated job trees "
+              "(nested update_context, get_context in bodies and as argument defaults) on the real Scheduler vs the model, plus the statement "
+              "as an independent Python oracle.")
+LEVEL_NOTE = ("The scheduler's job tree (which job is whose parent, which override a call carries, where get_context is evaluated) is not inside the "
+              "Lean model: jobContext takes the ancestor chain as input; that part is tied only by running generated workflows on the real "
+              "Scheduler. var_path.split('.') is String.splitOn in the model (lookup_spec is stated over the segment list). Overrides holding "
+              "Expressions, get_context inside task options, and sharing of results between contexts (C05) are outside this check. A single "
+              "update_context(ctx, **kwargs) with previous override + ctx + kwargs all defining one key is the 3-ary merge (nary_note), not a left fold.")
+TECHNIQUE = "Lean 4 proof on a model of merge_dicts/get_context_value/Job.get_context + differential runs of generated job trees on the real Scheduler"
 
 KEYS = ["a", "b", "c", "d", "", "a.b", "k", "é"]
 
